@@ -78,3 +78,40 @@ pub fn column(x: f32, total_columns: f32) -> usize {
 
 /// Isolated runs of the three osu!→mania pattern generators and the per-object conversion trace.
 pub use super::convert::verif_gen as gen;
+
+/// Everything the mania `Strain` skill consumes and produces for a map.
+#[derive(Clone, Debug, PartialEq)]
+pub struct ManiaSkillTrace {
+    pub clock_rate: f64,
+    /// `map.cs.round_ties_even().max(1.0)` of the prepared map.
+    pub total_columns: f32,
+    /// `(start_time, end_time, column)` of every `ManiaObject` of the prepared
+    /// map (before `take(passed_objects)`).
+    pub objects: Vec<(f64, f64, usize)>,
+    /// What `strain_value_at` returned per processed difficulty object.
+    pub object_strains: Vec<f64>,
+    /// `Strain::into_difficulty_value`.
+    pub difficulty_value: f64,
+}
+
+/// Runs `DifficultyValues::calculate` exactly like `mania::difficulty::difficulty`
+/// does and reports the skill's inputs and outputs.
+pub fn skill_trace(difficulty: &Difficulty, map: &Beatmap) -> Result<ManiaSkillTrace, ConvertError> {
+    use crate::any::difficulty::skills::StrainSkill;
+
+    let map = prepared_map(difficulty, map)?;
+    let objects = object_summaries(&map)
+        .into_iter()
+        .map(|o| (o.start_time, o.end_time, o.column))
+        .collect();
+    let values = super::difficulty::DifficultyValues::calculate(difficulty, &map);
+    let object_strains = values.strain.verif_object_strains().to_vec();
+
+    Ok(ManiaSkillTrace {
+        clock_rate: difficulty.get_clock_rate(),
+        total_columns: map.cs.round_ties_even().max(1.0),
+        objects,
+        object_strains,
+        difficulty_value: values.strain.into_difficulty_value(),
+    })
+}
